@@ -53,12 +53,14 @@ def build_ops(rng, spec):
                 out[a][b] = c[a][b] / d if d > 0 else 0.0
         return out
     ops.append(dict(py={'kind': 'attr', 'path': 'sfs.corr'}, queries=covq, combine=corr_combine, tol='corr'))
-    # the same matrices asked again AFTER the correlation matrix (cached objects must not be altered by later queries)
-    ops.append(dict(py={'kind': 'attr', 'path': 'sfs.cov'}, queries=covq, combine=cov_combine, tol='higher',
+    # the same matrices asked again AFTER the correlation matrix (cached objects must not be altered by later queries) and after
+    # they have been plotted
+    ops.append(dict(py={'kind': 'attr_after_plot', 'path': 'sfs.cov'}, queries=covq, combine=cov_combine, tol='higher',
                     scale=lambda mq, nb=len(bins): max(x[0] ** 2 for x in mq[nb * nb:])))
     ops.append(dict(py={'kind': 'attr', 'path': 'sfs.mean'},
                     queries=[dict(kind='moment', k=1, rewards=[sfs_r(i)]) for i in bins],
                     combine=lambda mq, nb=len(bins): pad([x[0] for x in mq], nb), tol='mean'))
+    ops.append(dict(py={'kind': 'attr_after_plot', 'path': 'sfs.corr'}, queries=covq, combine=corr_combine, tol='corr'))
     if len(bins) >= 2:
         i, j = rng.sample(bins, 2)
         ops.append(dict(py={'kind': 'moment', 'route': 'coal', 'k': 2, 'rewards': [['UnfoldedSFS', i], ['UnfoldedSFS', j]], 'center': True},
